@@ -207,8 +207,8 @@ Proof.
   - rewrite IH. rewrite erase_map_insert. reflexivity.
 Qed.
 
-Lemma seq_layer_spec : forall s ts, erase_res (snd (seq_layer s ts)) = spec_layer ts.
-Proof. intros. unfold seq_layer, spec_layer. rewrite seq_tasks_erase. reflexivity. Qed.
+Lemma seq_glyphs_spec : forall s ts, erase_res (snd (seq_glyphs s ts)) = spec_glyphs ts.
+Proof. intros. unfold seq_glyphs, spec_glyphs. rewrite seq_tasks_erase. reflexivity. Qed.
 
 (** * The machine *)
 Lemma nth_error_upd : forall A (l : list A) i j x,
@@ -551,7 +551,7 @@ Proof.
   constructor; [|apply IH; exact ND']. intro H. apply Hn. apply spec_keys_in. exact H.
 Qed.
 
-Definition dflt_task := mkTask ([], 0%N) [] (TErr 0%N).
+Definition dflt_task := mkTask ([], 0%N) None [] (TErr 0%N).
 
 Lemma results_erase : forall sched s ts,
   let st := run sched s (map prog_of ts) in
@@ -565,11 +565,11 @@ Proof.
   apply run_got_content. rewrite nth_error_map. rewrite (nth_error_nth' ts dflt_task Hlt). reflexivity.
 Qed.
 
-Lemma par_layer_spec : forall sched s ts,
-  NoDup (keys_of ts) -> erase_res (snd (par_layer sched s ts)) = spec_layer ts.
+Lemma par_glyphs_spec : forall sched s ts,
+  NoDup (keys_of ts) -> erase_res (snd (par_glyphs sched s ts)) = spec_glyphs ts.
 Proof.
-  intros sched s ts ND. unfold par_layer. cbn [snd]. rewrite erase_collect. rewrite results_erase.
-  cbn [erase_map map]. unfold spec_layer.
+  intros sched s ts ND. unfold par_glyphs. cbn [snd]. rewrite erase_collect. rewrite results_erase.
+  cbn [erase_map map]. unfold spec_glyphs.
   rewrite <- (map_nth_seq _ ts dflt_task) at 2. rewrite map_map.
   symmetry. apply collectC_perm.
   - apply Permutation_map. apply Permutation_sym.
@@ -577,9 +577,9 @@ Proof.
   - rewrite <- map_map with (g := task_spec). rewrite map_nth_seq. apply spec_keys_nodup. exact ND.
 Qed.
 
-Theorem par_layer_eq_seq : forall sched s ts,
-  NoDup (keys_of ts) -> erase_res (snd (par_layer sched s ts)) = erase_res (snd (seq_layer s ts)).
-Proof. intros. rewrite par_layer_spec by assumption. rewrite seq_layer_spec. reflexivity. Qed.
+Theorem par_glyphs_eq_seq : forall sched s ts,
+  NoDup (keys_of ts) -> erase_res (snd (par_glyphs sched s ts)) = erase_res (snd (seq_glyphs s ts)).
+Proof. intros. rewrite par_glyphs_spec by assumption. rewrite seq_glyphs_spec. reflexivity. Qed.
 
 Lemma all_some_spec : forall ts, all_some (map task_spec ts) = forallb task_ok ts.
 Proof.
@@ -587,31 +587,31 @@ Proof.
   rewrite IH. unfold task_spec, task_ok. destruct (t_out t); reflexivity.
 Qed.
 
-Lemma par_layer_ok_iff : forall sched s ts,
-  (exists m, snd (par_layer sched s ts) = inr m) <-> forallb task_ok ts = true.
+Lemma par_glyphs_ok_iff : forall sched s ts,
+  (exists m, snd (par_glyphs sched s ts) = inr m) <-> forallb task_ok ts = true.
 Proof.
   intros sched s ts.
-  assert (E : erase_res (snd (par_layer sched s ts)) <> None <-> forallb task_ok ts = true).
-  { unfold par_layer. cbn [snd]. rewrite erase_collect, results_erase. rewrite collectC_spec.
+  assert (E : erase_res (snd (par_glyphs sched s ts)) <> None <-> forallb task_ok ts = true).
+  { unfold par_glyphs. cbn [snd]. rewrite erase_collect, results_erase. rewrite collectC_spec.
     rewrite (all_some_perm _ _ (map (fun i => task_spec (nth i ts dflt_task)) (seq 0 (length ts)))).
     - rewrite <- map_map with (g := task_spec). rewrite map_nth_seq. rewrite all_some_spec.
       destruct (forallb task_ok ts); split; congruence.
     - apply Permutation_map. pose proof (run_done_perm sched s (map prog_of ts)) as HP.
       rewrite map_length in HP. exact HP. }
-  rewrite <- E. destruct (snd (par_layer sched s ts)) as [e|m]; cbn [erase_res]; split.
+  rewrite <- E. destruct (snd (par_glyphs sched s ts)) as [e|m]; cbn [erase_res]; split.
   - intros [m H]. discriminate.
   - congruence.
   - discriminate.
   - eauto.
 Qed.
-Lemma seq_layer_ok_iff : forall s ts,
-  (exists m, snd (seq_layer s ts) = inr m) <-> forallb task_ok ts = true.
+Lemma seq_glyphs_ok_iff : forall s ts,
+  (exists m, snd (seq_glyphs s ts) = inr m) <-> forallb task_ok ts = true.
 Proof.
   intros s ts.
-  assert (E : erase_res (snd (seq_layer s ts)) <> None <-> forallb task_ok ts = true).
-  { rewrite seq_layer_spec. unfold spec_layer. rewrite collectC_spec, all_some_spec.
+  assert (E : erase_res (snd (seq_glyphs s ts)) <> None <-> forallb task_ok ts = true).
+  { rewrite seq_glyphs_spec. unfold spec_glyphs. rewrite collectC_spec, all_some_spec.
     destruct (forallb task_ok ts); split; congruence. }
-  rewrite <- E. destruct (snd (seq_layer s ts)) as [e|m]; cbn [erase_res]; split.
+  rewrite <- E. destruct (snd (seq_glyphs s ts)) as [e|m]; cbn [erase_res]; split.
   - intros [m H]. discriminate.
   - congruence.
   - discriminate.
@@ -689,6 +689,57 @@ Proof.
     split; [auto|]. intro c. rewrite H2, H1, map_app, in_app_iff. tauto.
 Qed.
 
+(** * The whole of [load_impl]: file-name check, then the glyphs *)
+Lemma par_layer_spec : forall sched s ts,
+  NoDup (keys_of ts) -> erase_res (snd (par_layer sched s ts)) = spec_layer ts.
+Proof.
+  intros sched s ts ND. unfold par_layer, spec_layer. destruct (files_ok [] ts); [apply par_glyphs_spec; exact ND|reflexivity].
+Qed.
+Lemma seq_layer_spec : forall s ts, erase_res (snd (seq_layer s ts)) = spec_layer ts.
+Proof.
+  intros s ts. unfold seq_layer, spec_layer. destruct (files_ok [] ts); [apply seq_glyphs_spec|reflexivity].
+Qed.
+Theorem par_layer_eq_seq : forall sched s ts,
+  NoDup (keys_of ts) -> erase_res (snd (par_layer sched s ts)) = erase_res (snd (seq_layer s ts)).
+Proof. intros. rewrite par_layer_spec by assumption. rewrite seq_layer_spec. reflexivity. Qed.
+Lemma par_layer_ok_iff : forall sched s ts,
+  (exists m, snd (par_layer sched s ts) = inr m) <-> layer_ok ts = true.
+Proof.
+  intros sched s ts. unfold par_layer, layer_ok. destruct (files_ok [] ts); cbn [andb].
+  - apply par_glyphs_ok_iff.
+  - cbn [snd]. split; [intros [m H]; discriminate|discriminate].
+Qed.
+Lemma seq_layer_ok_iff : forall s ts,
+  (exists m, snd (seq_layer s ts) = inr m) <-> layer_ok ts = true.
+Proof.
+  intros s ts. unfold seq_layer, layer_ok. destruct (files_ok [] ts); cbn [andb].
+  - apply seq_glyphs_ok_iff.
+  - cbn [snd]. split; [intros [m H]; discriminate|discriminate].
+Qed.
+
+(** a layer that loads has pairwise different glif files *)
+Lemma files_ok_nodup : forall ts seen, files_ok seen ts = true ->
+  NoDup (map file_of ts) /\ forall f, In f (map file_of ts) -> ~ In f seen.
+Proof.
+  induction ts as [|t r IH]; intros seen H; cbn [map]; [split; [constructor|intros f []]|].
+  cbn [files_ok] in H. unfold file_of at 1 3. destruct (t_file t) as [f|]; [|discriminate].
+  destruct (existsb (str_eqb f) seen) eqn:E; [discriminate|].
+  destruct (IH (f :: seen) H) as [ND Hn].
+  assert (Hf : ~ In f seen).
+  { intro Hin. assert (existsb (str_eqb f) seen = true) as X; [|congruence].
+    apply existsb_exists. exists f. split; [exact Hin|apply str_eqb_refl]. }
+  split.
+  - constructor; [|exact ND]. intro Hin. apply (Hn f Hin). left. reflexivity.
+  - intros g [<-|Hin]; [exact Hf|]. intro Hs. apply (Hn g Hin). right. exact Hs.
+Qed.
+Lemma loaded_layer_paths_distinct : forall sched s ts enc,
+  (exists m, snd (par_layer sched s ts) = inr m) -> NoDup (map fst (save_tasks enc ts)).
+Proof.
+  intros sched s ts enc H. apply par_layer_ok_iff in H. unfold layer_ok in H. apply andb_true_iff in H.
+  destruct H as [H _]. unfold save_tasks. rewrite map_map. cbn [fst].
+  apply (files_ok_nodup ts [] H).
+Qed.
+
 (** * The font: layers one after the other *)
 Definition layers_ok (ls : list layer_in) : Prop := forall l, In l ls -> NoDup (keys_of (snd l)).
 
@@ -716,14 +767,14 @@ Theorem par_font_eq_seq : forall scheds s ls, layers_ok ls ->
 Proof. intros. rewrite par_font_spec by assumption. rewrite seq_font_spec. reflexivity. Qed.
 
 (** the interner after all layers: same contents in both builds when every glif parses *)
-Definition font_ok (ls : list layer_in) : bool := forallb (fun l => forallb task_ok (snd l)) ls.
+Definition font_ok (ls : list layer_in) : bool := forallb (fun l => layer_ok (snd l)) ls.
 Definition font_reqs (ls : list layer_in) : list name := concat (map (fun l => concat (map prog_of (snd l))) ls).
 
-Lemma par_layer_set : forall sched s ts,
+Lemma par_layer_set : forall sched s ts, files_ok [] ts = true ->
   (NoDup (map content s) -> NoDup (map content (fst (par_layer sched s ts)))) /\
   forall c, In c (map content (fst (par_layer sched s ts))) <->
             In c (map content s) \/ In c (map content (concat (map prog_of ts))).
-Proof. intros. unfold par_layer. cbn [fst]. apply par_set_union. Qed.
+Proof. intros sched s ts F. unfold par_layer. rewrite F. unfold par_glyphs. cbn [fst]. apply par_set_union. Qed.
 
 Lemma par_font_set : forall ls scheds s, font_ok ls = true ->
   (NoDup (map content s) -> NoDup (map content (fst (par_font scheds s ls)))) /\
@@ -733,7 +784,8 @@ Proof.
   induction ls as [|[ln ts] r IH]; intros scheds s Hok; cbn [par_font].
   - cbn. split; [auto|]. intro c; tauto.
   - cbn [font_ok forallb snd] in Hok. apply andb_true_iff in Hok. destruct Hok as [Ht Hr].
-    destruct (par_layer_set (hd [] scheds) s ts) as [N1 H1].
+    assert (Hf : files_ok [] ts = true) by (unfold layer_ok in Ht; apply andb_true_iff in Ht; tauto).
+    destruct (par_layer_set (hd [] scheds) s ts Hf) as [N1 H1].
     pose proof (proj2 (par_layer_ok_iff (hd [] scheds) s ts) Ht) as [m Hm].
     destruct (par_layer (hd [] scheds) s ts) as [s1 res]. cbn [fst snd] in *. subst res.
     destruct (IH (tl scheds) s1 Hr) as [N2 H2]. destruct (par_font (tl scheds) s1 r) as [s2 rr]. cbn [fst] in *.
@@ -748,8 +800,10 @@ Proof.
   induction ls as [|[ln ts] r IH]; intros s Hok; cbn [seq_font].
   - cbn. split; [auto|]. intro c; tauto.
   - cbn [font_ok forallb snd] in Hok. apply andb_true_iff in Hok. destruct Hok as [Ht Hr].
-    destruct (seq_tasks_set ts s [] Ht) as [N1 H1].
-    pose proof (proj2 (seq_layer_ok_iff s ts) Ht) as [m Hm]. unfold seq_layer in *.
+    assert (Hf : files_ok [] ts = true /\ forallb task_ok ts = true) by (unfold layer_ok in Ht; apply andb_true_iff in Ht; tauto).
+    destruct Hf as [Hf Hto].
+    destruct (seq_tasks_set ts s [] Hto) as [N1 H1].
+    pose proof (proj2 (seq_layer_ok_iff s ts) Ht) as [m Hm]. unfold seq_layer, seq_glyphs in *. rewrite Hf in *.
     destruct (seq_tasks s ts []) as [s1 res]. cbn [fst snd] in *. subst res.
     destruct (IH s1 Hr) as [N2 H2]. destruct (seq_font s1 r) as [s2 rr]. cbn [fst] in *.
     split; [auto|]. intro c. unfold font_reqs. cbn [map concat snd]. rewrite H2, H1, map_app, in_app_iff.
